@@ -1,5 +1,6 @@
 import GoguVerif.Theorems.C19
 import GoguVerif.Theorems.C19Handles
+import GoguVerif.Theorems.C19Handles2
 open GoguVerif.Theorems.C19
 #print axioms SList.slist_init_repr
 #print axioms SList.slist_each_observes
@@ -44,3 +45,21 @@ open GoguVerif.Theorems.C19
 #print axioms GoguVerif.Theorems.C19H.moveIdx_pos
 #print axioms GoguVerif.Theorems.C19H.SList.slist_kept_handle
 #print axioms GoguVerif.Theorems.C19H.DList.excluded_stale_handle_dlist
+-- kept handles, part 2 (Theorems/C19Handles2.lean): the DList side at any position, tracking, whole histories
+#print axioms GoguVerif.Theorems.C19H.DList.dlist_deleteH_refines
+#print axioms GoguVerif.Theorems.C19H.DList.dlist_insertAfterH_refines
+#print axioms GoguVerif.Theorems.C19H.DList.dlist_insertBeforeH_refines
+#print axioms GoguVerif.Theorems.C19H.DList.dlist_step_tracks
+#print axioms GoguVerif.Theorems.C19H.DList.dlist_kept_handle
+#print axioms GoguVerif.Theorems.C19H.DList.excluded_head_handle_dlist
+#print axioms GoguVerif.Theorems.C19H.DList.excluded_copied_handle_dlist
+-- mixed histories: handle operations in the middle (Theorems/C19Handles2.lean, section 3)
+#print axioms GoguVerif.Theorems.C19H.allowedH_iff_nextH
+#print axioms GoguVerif.Theorems.C19H.valid_move
+#print axioms GoguVerif.Theorems.C19H.SList.slist_step_tracks_next
+#print axioms GoguVerif.Theorems.C19H.SList.slist_mixed_history
+#print axioms GoguVerif.Theorems.C19H.SList.excluded_mixed_slist
+#print axioms GoguVerif.Theorems.C19H.DList.nextD_allowed
+#print axioms GoguVerif.Theorems.C19H.DList.dlist_step_tracks_next
+#print axioms GoguVerif.Theorems.C19H.DList.dlist_mixed_history
+#print axioms GoguVerif.Theorems.C19H.DList.excluded_mixed_dlist
